@@ -396,7 +396,8 @@ func (p *Preprocessor) canonicalizeConditional(graph *cfg.CFG, thisBlock *cfg.Bl
 			// For explicit boolean NEQ checks, we replace the AST nodes for `ok != true` and `ok != false`
 			// (also, `true != ok` and `false != ok`) with `ok` and `!ok` form for the true and false cases, respectively.
 			if p.isPredeclared(y, "false") {
-				replaceCond(x) // replaces `ok != false` with `ok`
+				replaceCond(x)                              // replaces `ok != false` with `ok`
+				p.canonicalizeConditional(graph, thisBlock) // recur, since `ok` may itself be e.g. `!c`, `(c)` or `c1 && c2`
 			} else if p.isPredeclared(y, "true") {
 				newCond := &ast.UnaryExpr{
 					OpPos: y.Pos(),
@@ -411,7 +412,8 @@ func (p *Preprocessor) canonicalizeConditional(graph *cfg.CFG, thisBlock *cfg.Bl
 			// For explicit boolean EQL checks, we replace the AST nodes for `ok == true` and `ok == false`
 			// (also, `true == ok` and `false == ok`) with `ok` and `!ok` form for the true and false cases, respectively.
 			if p.isPredeclared(y, "true") {
-				replaceCond(x) // replaces `ok == true` with `ok`
+				replaceCond(x)                              // replaces `ok == true` with `ok`
+				p.canonicalizeConditional(graph, thisBlock) // recur, since `ok` may itself be e.g. `!c`, `(c)` or `c1 && c2`
 			} else if p.isPredeclared(y, "false") {
 				newCond := &ast.UnaryExpr{
 					OpPos: y.Pos(),
